@@ -19,7 +19,6 @@ import codecs
 import csv
 import string
 import token
-import tokenize
 
 from cutplace import _compat, _tools, errors, ranges
 from cutplace._tools import generated_tokens
@@ -484,10 +483,12 @@ class DataFormat(object):
                         % (name_for_errors, _compat.text_repr(value)),
                         location,
                     )
-            except tokenize.TokenError as error:
+            except errors.InterfaceError as error:
+                if error.cause is None:
+                    raise
                 raise errors.InterfaceError(
                     "value for %s must be a valid Python token: %s (error: %s)"
-                    % (name_for_errors, _compat.text_repr(value), error),
+                    % (name_for_errors, _compat.text_repr(value), error.cause),
                     location,
                 )
 
